@@ -16,6 +16,22 @@ type (
 )
 
 const (
+	ENOTDIR   = real.ENOTDIR
+	EACCES    = real.EACCES
+	EPERM     = real.EPERM
+	EBUSY     = real.EBUSY
+	ENOTEMPTY = real.ENOTEMPTY
+	EBADF     = real.EBADF
+
+	LOCK_SH = real.LOCK_SH
+	LOCK_EX = real.LOCK_EX
+	LOCK_NB = real.LOCK_NB
+	LOCK_UN = real.LOCK_UN
+
+	PROT_READ  = real.PROT_READ
+	PROT_WRITE = real.PROT_WRITE
+	MAP_SHARED = real.MAP_SHARED
+
 	ENOENT = real.ENOENT
 	EEXIST = real.EEXIST
 	ENOSPC = real.ENOSPC
@@ -42,4 +58,12 @@ var (
 	Getpid = real.Getpid
 	Stat   = real.Stat
 	Fsync  = real.Fsync
+	// pass-through (not simulated): present so that an edit using them still compiles; nothing in the engine does
+	Flock     = real.Flock
+	Fstat     = real.Fstat
+	Ftruncate = real.Ftruncate
+	Fdatasync = real.Fdatasync
+	Mmap      = real.Mmap
+	Munmap    = real.Munmap
+	Getuid    = real.Getuid
 )
